@@ -86,6 +86,8 @@ pub fn gen_val(ty: &Ty, d: &mut Dec, depth: usize) -> ArgVal {
             ArgVal::Seq((0..n).map(|_| gen_val(t, d, depth + 1)).collect())
         }
         Ty::UStruct => ArgVal::UStruct(d.choose(4) as u32 * if d.chance(1, 4) { 11 } else { 1 }, gen_string(d)),
+        Ty::UPoint => ArgVal::Tup(vec![gen_val(&Ty::U32, d, depth + 1), gen_val(&Ty::U16, d, depth + 1)]),
+        Ty::UWrap => ArgVal::Tup(vec![gen_val(&Ty::U8, d, depth + 1)]),
         Ty::UEnum => match d.choose(3) {
             0 => ArgVal::UEnum(0, 0, String::new()),
             1 => ArgVal::UEnum(1, d.choose(4) as i64, String::new()),
@@ -145,7 +147,7 @@ struct Pair {
 fn key_fns() -> &'static Vec<u32> {
     use std::sync::OnceLock;
     static C: OnceLock<Vec<u32>> = OnceLock::new();
-    C.get_or_init(|| static_corpus().funcs.iter().filter(|d| matches!(d.family, "key" | "meth")).map(|d| d.id).collect())
+    C.get_or_init(|| static_corpus().funcs.iter().filter(|d| matches!(d.family, "key" | "meth" | "pat")).map(|d| d.id).collect())
 }
 
 /// clamp unsigned leaves back into their type after digit re-splitting
@@ -157,6 +159,8 @@ fn fits(args: &[ArgVal], tys: &[Ty]) -> bool {
                 *x <= max
             }
             (ArgVal::Tup(vs), Ty::Tup(ts)) => vs.iter().zip(ts.iter()).all(|(v, t)| ok(v, t)),
+            (ArgVal::Tup(vs), Ty::UPoint) => ok(&vs[0], &Ty::U32) && ok(&vs[1], &Ty::U16),
+            (ArgVal::Tup(vs), Ty::UWrap) => ok(&vs[0], &Ty::U8),
             (ArgVal::Seq(vs), Ty::Vec(t)) | (ArgVal::Seq(vs), Ty::Slice(t)) => vs.iter().all(|v| ok(v, t)),
             (ArgVal::Opt(Some(b)), Ty::Opt(t)) => ok(b, t),
             _ => true,
@@ -171,12 +175,12 @@ fn decode(bytes: &[u8]) -> Pair {
     let fns = key_fns();
     let fd = corpus.by_id(fns[d.choose16(fns.len())]);
     let has_recv = fd.receiver != Receiver::None;
-    let r1 = if has_recv { Some(gen_val(&Ty::UStruct, &mut d, 0)) } else { None };
-    let t1: Vec<ArgVal> = fd.args.iter().map(|t| gen_val(t, &mut d, 0)).collect();
+    let mut r1 = if has_recv { Some(gen_val(&Ty::UStruct, &mut d, 0)) } else { None };
+    let mut t1: Vec<ArgVal> = fd.args.iter().map(|t| gen_val(t, &mut d, 0)).collect();
     let mut r2 = r1.clone();
     let mut t2 = t1.clone();
-    let how_idx = d.weighted(&[3, 3, 4, 4, 2, 3, 2, 2]);
-    let mut how = ["copy", "independent", "shift_boundary", "inject", "swap", "resplit_digits", "receiver", "float_neighbour"][how_idx];
+    let how_idx = d.weighted(&[3, 3, 4, 4, 2, 3, 2, 2, 2]);
+    let mut how = ["copy", "independent", "shift_boundary", "inject", "swap", "resplit_digits", "receiver", "float_neighbour", "long_common_prefix"][how_idx];
     match how_idx {
         0 => {}
         1 => {
@@ -335,6 +339,87 @@ fn decode(bytes: &[u8]) -> Pair {
                 t2 = fd.args.iter().map(|t| gen_val(t, &mut d, 0)).collect();
             }
         }
+        8 => {
+            // two long values of equal length that agree on a long prefix and differ behind it
+            let n = [40usize, 300, 1024, 4090, 4096, 5000, 9000][d.choose(7)];
+            let tail_len = d.choose(4);
+            let mut w1 = ArgVal::Tup(r1.iter().cloned().chain(t1.iter().cloned()).collect());
+            let mut w2 = w1.clone();
+            let mut ok = false;
+            {
+                let (mut l1, mut l2) = (Vec::new(), Vec::new());
+                string_leaves(&mut w1, &mut l1);
+                string_leaves(&mut w2, &mut l2);
+                if !l1.is_empty() {
+                    let i = d.choose(l1.len());
+                    let mut base = String::with_capacity(n + 8);
+                    for j in 0..n {
+                        base.push((b'a' + (j % 23) as u8) as char);
+                    }
+                    let tail: String = "tail".chars().take(tail_len).collect();
+                    *l1[i] = format!("{base}X{tail}");
+                    *l2[i] = format!("{base}Y{tail}");
+                    ok = true;
+                }
+            }
+            if !ok {
+                fn grow(v: &mut ArgVal, n: usize, done: &mut bool) {
+                    match v {
+                        ArgVal::Seq(vs) if !*done && !vs.is_empty() => {
+                            let e = vs[0].clone();
+                            while vs.len() < n {
+                                vs.push(e.clone());
+                            }
+                            *done = true;
+                        }
+                        ArgVal::Tup(vs) => {
+                            for x in vs.iter_mut() {
+                                grow(x, n, done);
+                            }
+                        }
+                        ArgVal::Opt(Some(b)) => grow(b, n, done),
+                        _ => {}
+                    }
+                }
+                // a long sequence: the second tuple drops the last element and doubles the first
+                let mut done = false;
+                grow(&mut w1, n / 4 + 2, &mut done);
+                if done {
+                    w2 = w1.clone();
+                    fn last_differs(v: &mut ArgVal, done: &mut bool) {
+                        match v {
+                            ArgVal::Seq(vs) if !*done && vs.len() > 8 => {
+                                vs.pop();
+                                *done = true;
+                            }
+                            ArgVal::Tup(vs) => {
+                                for x in vs.iter_mut() {
+                                    last_differs(x, done);
+                                }
+                            }
+                            ArgVal::Opt(Some(b)) => last_differs(b, done),
+                            _ => {}
+                        }
+                    }
+                    let mut d2 = false;
+                    last_differs(&mut w2, &mut d2);
+                    ok = d2;
+                }
+            }
+            if ok {
+                let ArgVal::Tup(mut v1) = w1 else { unreachable!() };
+                let ArgVal::Tup(mut v2) = w2 else { unreachable!() };
+                if has_recv {
+                    r1 = Some(v1.remove(0));
+                    r2 = Some(v2.remove(0));
+                }
+                t1 = v1;
+                t2 = v2;
+            } else {
+                how = "independent";
+                t2 = fd.args.iter().map(|t| gen_val(t, &mut d, 0)).collect();
+            }
+        }
         _ => {
             if let Some(ArgVal::UStruct(id, name)) = &mut r2 {
                 if d.chance(1, 2) {
@@ -352,13 +437,22 @@ fn decode(bytes: &[u8]) -> Pair {
 }
 
 fn to_case(p: &Pair) -> KeyPairCase {
+    // long renderings are abbreviated (head, length, hash, tail) in case descriptions
+    let short = |s: String| -> String {
+        if s.len() <= 240 {
+            s
+        } else {
+            let cs: Vec<char> = s.chars().collect();
+            format!("{}...[{} bytes, fnv {:x}]...{}", cs[..60].iter().collect::<String>(), s.len(), crate::infra::str_hash(&s), cs[cs.len() - 40..].iter().collect::<String>())
+        }
+    };
     let render = |args: &Vec<ArgVal>| -> Vec<String> {
         args.iter()
             .zip(p.d.args.iter())
             .map(|(a, t)| {
                 let mut s = String::new();
                 crate::keys::render(a, t, &mut s);
-                s
+                short(s)
             })
             .collect()
     };
